@@ -146,3 +146,69 @@ func exploreAutomaton(base *Run, maxStates int) *Run {
 	agg.Wall = time.Since(t0)
 	return agg
 }
+
+// exploreCorpusLoop runs the harness once per text of the given kind of the repository's corpus
+// (Param "case" = index) and aggregates the results.
+func exploreCorpusLoop(base *Run, kind string) *Run {
+	corpusSource()
+	n := corpusKinds[kind]
+	agg := &Run{Env: base.Env, Harness: base.Harness, Params: base.Params,
+		Outcomes: map[string]int{}, Reached: map[string]int{}, Inconcl: map[string]int{},
+		FnHits: map[string]int{}, Keys: map[string][]InputVal{}}
+	t0 := time.Now()
+	runs := make([]*Run, n)
+	var wg sync.WaitGroup
+	sem := make(chan struct{}, 8)
+	for i := 0; i < n; i++ {
+		wg.Add(1)
+		sem <- struct{}{}
+		go func(i int) {
+			defer wg.Done()
+			defer func() { <-sem }()
+			params := map[string]int{}
+			for k, v := range base.Params {
+				params[k] = v
+			}
+			params["case"] = i
+			r := &Run{Env: base.Env, Harness: base.Harness, Params: params, Fuel: base.Fuel, Workers: 2, Quiet: true,
+				PanicIsOK: base.PanicIsOK, MergeOff: base.MergeOff, DiffEvery: base.DiffEvery, MaxPaths: base.MaxPaths}
+			r.Explore()
+			runs[i] = r
+		}(i)
+	}
+	wg.Wait()
+	for i, r := range runs {
+		agg.Paths += r.Paths
+		agg.Asserts += r.Asserts
+		agg.Instrs += r.Instrs
+		agg.Queries += r.Queries
+		agg.SolverDur += r.SolverDur
+		agg.Decisions += r.Decisions
+		for k, n := range r.Outcomes {
+			agg.Outcomes[k] += n
+		}
+		for k, n := range r.Reached {
+			agg.Reached[k] += n
+		}
+		for k, n := range r.Inconcl {
+			agg.Inconcl[k] += n
+		}
+		for k, n := range r.FnHits {
+			agg.FnHits[k] += n
+		}
+		if r.Truncated {
+			agg.Truncated = true
+		}
+		agg.Violations = append(agg.Violations, r.Violations...)
+		if len(agg.DiffSamples) < 24 {
+			agg.DiffSamples = append(agg.DiffSamples, r.DiffSamples...)
+		}
+		if len(agg.Samples) < 12 && len(r.Samples) > 0 && i%7 == 0 {
+			agg.Samples = append(agg.Samples, r.Samples[0])
+			agg.SampleObs = append(agg.SampleObs, r.SampleObs[0])
+		}
+	}
+	agg.Reached["corpus/texts"] = n
+	agg.Wall = time.Since(t0)
+	return agg
+}
